@@ -82,6 +82,17 @@ def parse_grid(grid_str):
     return grid
 
 
+def _is_grid_object(obj):
+    # A nested grid is an object with meta (itself an object carrying the
+    # version), cols (an array) and rows.  The key names alone are not enough:
+    # {"meta": .., "cols": .., "rows": ..} is also a legal dict of three tags.
+    if not {"meta", "cols", "rows"} <= set(obj.keys()):
+        return False
+    meta = obj['meta']
+    return isinstance(meta, dict) and ('ver' in meta) \
+        and isinstance(obj['cols'], list)
+
+
 def parse_embedded_scalar(scalar, version=LATEST_VER):
     # Simple cases
     if scalar is None:
@@ -98,8 +109,7 @@ def parse_embedded_scalar(scalar, version=LATEST_VER):
         if Version.nearest(version) < VER_3_0:
             raise ValueError('Dicts are not supported in Haystack version %s' \
                              % version)
-        if sys.version_info[0] < 3 and {"meta", "cols", "rows"} <= scalar.viewkeys() \
-                or {"meta", "cols", "rows"} <= scalar.keys():  # Check if grid in grid
+        if _is_grid_object(scalar):  # Check if grid in grid
             return parse_grid(scalar)
         else:
             return {k: parse_scalar(v, version=version) for (k, v) in scalar.items()}
